@@ -288,3 +288,75 @@ def ob_d_shared(ob):
     """Etot of an excited active state adds this re-evaluated excitation energy to the ground-state energy"""
     ob.note("this obligation is the one registered as C16.c; it is also decided here because Etot of an excited active state adds this re-evaluated excitation energy to the ground-state energy")
     _C16_mod.ob_c(ob)
+
+
+def replay_mo_tracking(perm_o, perm_v):
+    """float64, real Energy._crossing_match_molecular_orbitals: new orbitals = previous ones with the given reorderings (and a
+    sign flip); the returned energies must be the energies of the returned orbitals"""
+    from seqm.basics import Energy
+
+    nocc, nvir = len(perm_o), len(perm_v)
+    n = nocc + nvir
+    g = torch.Generator().manual_seed(5)
+    Q, _ = torch.linalg.qr(torch.rand(n, n, generator=g, dtype=torch.float64))
+    prev = Q.unsqueeze(0)
+    order = list(perm_o) + [nocc + k for k in perm_v]
+    new = prev[:, :, order].clone()
+    new[:, :, 0] *= -1
+    e_new = torch.arange(1.0, n + 1.0, dtype=torch.float64).unsqueeze(0)  # energy of new column c is c+1
+    mos, e = Energy._crossing_match_molecular_orbitals(new, prev, nocc, e_new.clone())
+    if e.shape != e_new.shape:
+        print("replay MO tracking: %d energies returned for %d orbitals" % (e.shape[1], n))
+        return True
+    bad = False
+    for k in range(n):
+        c = int(torch.argmax((new[0].T @ mos[0, :, k]).abs()))  # which new column ended up at position k
+        if abs(e[0, k].item() - e_new[0, c].item()) > 0:
+            print("replay MO tracking: returned orbital %d is new orbital %d (energy %.1f) but is reported with energy %.1f" % (k, c, e_new[0, c].item(), e[0, k].item()))
+            bad = True
+    if not bad:
+        print("replay MO tracking (occupied order %s, virtual order %s): energies follow their orbitals" % (perm_o, perm_v))
+    return bad
+
+
+@obligation(PID, "e", title="orbital tracking along a trajectory reorders orbital energies together with their orbitals: after Energy._crossing_match_molecular_orbitals the k-th reported energy is the energy of the orbital reported in column k, for every reordering of the occupied and of the virtual block (arbitrary energies)")
+def ob_e(ob):
+    import itertools
+    from seqm.basics import Energy
+
+    ob.encodes(Energy._crossing_match_molecular_orbitals)
+    ob.bound("2 occupied + 3 virtual orbitals, all 2! x 3! reorderings between consecutive steps (with a sign flip), batch of 2 molecules with different reorderings; the orbital energies symbolic reals; orbitals a concrete orthogonal matrix")
+    nocc, nvir = 2, 3
+    n = nocc + nvir
+    g = torch.Generator().manual_seed(5)
+    Q, _ = torch.linalg.qr(torch.rand(n, n, generator=g, dtype=torch.float64))
+    combos = [(po, pv) for po in itertools.permutations(range(nocc)) for pv in itertools.permutations(range(nvir))]
+    for idx, (po, pv) in enumerate(combos):
+        po2, pv2 = combos[(idx + 5) % len(combos)]
+        orders = [list(po) + [nocc + k for k in pv], list(po2) + [nocc + k for k in pv2]]
+        prev = Q.unsqueeze(0).repeat(2, 1, 1)
+        new = torch.stack([Q[:, orders[0]], Q[:, orders[1]]]).clone()
+        new[:, :, 0] *= -1
+        E = np.array([[z3.Real("e_%d_%d" % (b, c)) for c in range(n)] for b in range(2)], dtype=object)
+        with symbolic_factories():
+            mos, e = Energy._crossing_match_molecular_orbitals(new, prev, nocc, SymTensor(E.copy()))
+        ob.require(isinstance(e, SymTensor) and torch.is_tensor(mos), "unexpected return types from the MO tracking routine")
+        if e.a.shape != (2, n):
+            if replay_mo_tracking(list(po), list(pv)):
+                ob.violation("MO tracking returns %d orbital energies for %d orbitals (occupied order %s, virtual order %s)" % (e.a.shape[1], n, list(po), list(pv)), {"module": "harness.C14", "func": "replay_mo_tracking", "args": {"perm_o": list(po), "perm_v": list(pv)}})
+                return
+            raise HarnessError("energy vector of shape %s did not reproduce as a defect" % (e.a.shape,))
+        for b in range(2):
+            for k in range(n):
+                c = int(torch.argmax((new[b].T @ mos[b, :, k]).abs()))
+                lab = "e:orders %s molecule %d column %d" % (orders[b], b, k)
+                v, m = smt.prove(e.a[b, k] == E[b, c], [], lab, "lra", 10)
+                if v == "sat":
+                    sel = (po, pv) if b == 0 else (po2, pv2)
+                    if replay_mo_tracking(list(sel[0]), list(sel[1])):
+                        ob.violation("MO tracking returns orbital energies that do not belong to the reordered orbitals (occupied order %s, virtual order %s): excited-state energies and forces along a trajectory are computed from mismatched orbital/energy pairs after an orbital swap" % (list(sel[0]), list(sel[1])), {"module": "harness.C14", "func": "replay_mo_tracking", "args": {"perm_o": list(sel[0]), "perm_v": list(sel[1])}})
+                        return
+                    raise HarnessError("MO tracking counterexample did not reproduce (%s)" % lab)
+                ob.verdict(v, lab)
+    x, y = z3.Reals("x y")
+    expect_refuted(ob, x == y, [], "twin: another orbital's energy is distinguishable", "lra")
